@@ -233,6 +233,9 @@ static std::string cmd_exec(const std::vector<std::string>& a) {
 }
 
 // run `fn` in a child process (the library code calls exit(1) on some inputs); returns its output or EXIT<n>/CRASH
+#ifdef VERIF_COV
+extern "C" void __gcov_dump(void);
+#endif
 template <typename F> static std::string in_child(F fn) {
     int fds[2];
     if (pipe(fds) != 0) return "HARNESS-EXC pipe";
@@ -242,6 +245,9 @@ template <typename F> static std::string in_child(F fn) {
         std::string s;
         try { s = fn(); } catch (const std::exception& e) { s = std::string("UNCAUGHT ") + e.what(); }
         (void)!write(fds[1], s.c_str(), s.size());
+#ifdef VERIF_COV
+        __gcov_dump();
+#endif
         _exit(0);
     }
     close(fds[1]);
@@ -376,6 +382,9 @@ static std::string cmd_flags(const std::vector<std::string>& a) {
         unsigned int r = hx_svf_parse_flags(hx_standard_flags(), mod.c_str());
         std::string s = std::to_string(r) + " " + hx_svf_string(r, ",");
         (void)!write(fds[1], s.c_str(), s.size());
+#ifdef VERIF_COV
+        __gcov_dump();
+#endif
         _exit(0);
     }
     close(fds[1]);
